@@ -279,8 +279,18 @@ def mut_steps_order(events, rng):
     return ev
 
 
+def mut_validator_verdict(events, rng):
+    i = _find(events, lambda e: _built(e) and e.get("obs", {}).get("rd", {}).get("valid") == "Ok", rng)
+    if i is None:
+        return None
+    ev = copy.deepcopy(events)
+    ev[i]["obs"]["rd"]["valid"] = "Panic"
+    return ev
+
+
 # corruptions of CONFORMANCE data: they must show up as DRIFT lines
 DRIFT_MUTATORS = {
+    "validator_verdict_flipped": (mut_validator_verdict, ["C01"]),
     "phase_delete_items_altered": (mut_phase_delete, ["C01"]),
     "phase_insert_altered": (mut_phase_insert, ["C01"]),
     "progress_steps_swapped": (mut_steps_order, ["C10"]),
@@ -515,7 +525,7 @@ def run_main(pid, tier, seed, replay=None):
     hists_cache = {}
 
     def hist_of(r, hno):
-        if r["job"].get("kind") in ("txn", "crash", "fixture", "upgrade", "bq", "kernel"):
+        if r["job"].get("kind") in ("txn", "crash", "fixture", "upgrade", "bq", "kernel", "tmpn"):
             return dict(label=r["job"]["kind"], indexes=[], ops=[], job_args=r["job"]["args"], module=r["job"]["module"])
         if r["job"].get("kind") == "sched":
             key = r["prefix"] + "#sched"
@@ -543,7 +553,7 @@ def run_main(pid, tier, seed, replay=None):
     # ---- 3. binding self-test on clean traces
     bad_by_trace = []
     for r in results:
-        if r["job"].get("kind") in ("sched", "txn", "crash", "upgrade", "bq", "kernel"):
+        if r["job"].get("kind") in ("sched", "txn", "crash", "upgrade", "bq", "kernel", "tmpn"):
             continue
         bad_h = {v["h"] for v in r["viols"]}
         bad_by_trace.append((r["prefix"] + ".ndjson", bad_h))
@@ -564,6 +574,24 @@ def run_main(pid, tier, seed, replay=None):
                 st["applicable"] += ["schedule_duplicate_id", "schedule_step_removed"]
                 (st["rejected"] if any(v["conj"] == "id_handed_out_twice" for v in vv) else st["missed"]).append("schedule_duplicate_id")
                 (st["rejected"] if dr else st["missed"]).append("schedule_step_removed")
+            shutil.rmtree(dd, ignore_errors=True)
+    for r in results:
+        if r["job"].get("kind") == "tmpn":
+            # a recorded to_insert that keeps a removed entry / a missing to_delete id: both must drift
+            dd = vk.workdir(f"selftest_tmpn_{os.getpid()}")
+            lines = [json.loads(ln) for _, ln in zip(range(3000), open(r["prefix"] + ".ndjson"))]
+            cand = [e for e in lines if e["res"] == "Ok" and e["del"] and e["ins"]]
+            if cand:
+                e = copy.deepcopy(cand[len(cand) // 2])
+                e["ins"].append([e["del"][0], "x"])
+                e2 = copy.deepcopy(cand[0])
+                e2["del"].pop(0)
+                open(f"{dd}/m.ndjson", "w").write(json.dumps(e) + "\n" + json.dumps(e2) + "\n")
+                _, dr, _, _ = vk.run_trace(r["job"]["module"], f"{dd}/m.ndjson")
+                st["applicable"] += ["buffer_keeps_a_removed_entry", "buffer_forgets_a_deletion"]
+                conjs = {x["conj"] for x in dr}
+                (st["rejected"] if "to_insert_differs_from_the_specification" in conjs else st["missed"]).append("buffer_keeps_a_removed_entry")
+                (st["rejected"] if "to_delete_differs_from_the_specification" in conjs else st["missed"]).append("buffer_forgets_a_deletion")
             shutil.rmtree(dd, ignore_errors=True)
     for r in results:
         if r["job"].get("kind") in ("txn", "crash"):
@@ -635,7 +663,7 @@ def run_main(pid, tier, seed, replay=None):
 
     # ---- 4. samples and evidence
     samples = []
-    for r in [x for x in results if x["job"].get("kind") not in ("sched", "txn", "crash", "upgrade", "bq", "kernel")][:3]:
+    for r in [x for x in results if x["job"].get("kind") not in ("sched", "txn", "crash", "upgrade", "bq", "kernel", "tmpn")][:3]:
         hs = json.load(open(r["prefix"] + ".hist.json"))
         if hs:
             samples.append(summarize_history(hs[min(1, len(hs) - 1)]))
@@ -895,19 +923,25 @@ def mcr(used, overrides=None):
                 expect_violation=False, timeout=600, workers=4)
 
 
+def mctmp(tag, overrides=None, expect=False):
+    return dict(module="TmpNodes.tla", cfg="MC_TmpNodes.cfg", tag=tag, overrides=overrides or {}, expect_violation=expect, timeout=900, workers=4)
+
+
 def all_subsets(n):
     return [[i for i in range(n) if m >> i & 1] for m in range(1 << n)]
 
 
 MAIN["C13"] = dict(
-    mc=dict(quick=[mcn("ids_2x3"), mcn("sens_non_atomic", {"Atomic": "FALSE", "MaxReq": "2"}, expect=True)] + [mcr(u) for u in ([], [1, 4], [0, 1, 2], [5], [0, 2, 3, 5])],
+    mc=dict(quick=[mcn("ids_2x3"), mcn("sens_non_atomic", {"Atomic": "FALSE", "MaxReq": "2"}, expect=True)] + [mcr(u) for u in ([], [1, 4], [0, 1, 2], [5], [0, 2, 3, 5])] + [mctmp("write_back_buffer_3ops"), mctmp("sens_buffer_without_the_deleted_filter", {"FilterDeleted": "FALSE"}, expect=True)],
             thorough=[mcn("ids_2x3"), mcn("ids_3x3", {"Threads": "{1, 2, 3}", "MaxReq": "3"}, timeout=900),
-                      mcn("sens_non_atomic", {"Atomic": "FALSE", "MaxReq": "2"}, expect=True)] + [mcr(u) for u in all_subsets(6)]),
+                      mcn("sens_non_atomic", {"Atomic": "FALSE", "MaxReq": "2"}, expect=True)] + [mcr(u) for u in all_subsets(6)] + [mctmp("write_back_buffer_4ops", {"MaxOps": "4"}), mctmp("sens_buffer_without_the_deleted_filter", {"FilterDeleted": "FALSE"}, expect=True)]),
     proofs=dict(quick=["NodeIdsProof.tla"], thorough=["NodeIdsProof.tla"]),
     traces=dict(quick=[dict(profile="parallel", jobs=6, count=30, threads=[2, 4, 8, 16, 3, 16])],
                 thorough=[dict(profile="parallel", jobs=12, count=400, threads=[2, 4, 8, 16, 3, 16])]),
-    extra_jobs=dict(quick=[dict(name="schedules", kind="sched", module="TraceIds.tla", heap="6g", args=["nodeids", "--budget", "20000"])],
-                    thorough=[dict(name="schedules", kind="sched", module="TraceIds.tla", heap="10g", args=["nodeids", "--budget", "150000"])]),
+    extra_jobs=dict(quick=[dict(name="schedules", kind="sched", module="TraceIds.tla", heap="6g", args=["nodeids", "--budget", "20000"]),
+                           dict(name="tmpnodes", kind="tmpn", module="TraceTmp.tla", heap="4g", args=["tmpnodes"])],
+                    thorough=[dict(name="schedules", kind="sched", module="TraceIds.tla", heap="10g", args=["nodeids", "--budget", "150000"]),
+                              dict(name="tmpnodes", kind="tmpn", module="TraceTmp.tla", heap="8g", args=["tmpnodes"])]),
     distinct=lambda results: dict(
         n=sum(r["stats"]["histories"] for r in results if r["job"].get("kind") == "sched") + sum(r["stats"]["distinct_forests"] for r in results),
         rule="one case per distinct interleaving of the atomic steps of ConcurrentNodeIds::next() executed on the real code (depth-first "
